@@ -38,7 +38,7 @@ from typing import Optional
 
 from tools import vlib
 
-EXTRACT_VERSION = "c36-extract-8"
+EXTRACT_VERSION = "c36-extract-9"
 CLANG = os.environ.get("VERIF_CLANG", "clang++-14")
 
 # translation units and the -ast-dump-filter used for each
@@ -188,7 +188,7 @@ class _Pruner:
                 out["dt"] = ty["desugaredQualType"]
         for a, b in (("name", "n"), ("opcode", "op"), ("valueCategory", "vc"), ("castKind", "ck"), ("id", "id"),
                      ("isArrow", "arrow"), ("referencedMemberDecl", "mref"), ("isPostfix", "post"),
-                     ("init", "init")):
+                     ("init", "init"), ("hasElse", "helse"), ("hasInit", "hinit"), ("hasVar", "hvar")):
             if a in n:
                 out[b] = n[a]
         rd = n.get("referencedDecl")
@@ -489,6 +489,12 @@ class FnAnalysis:
         self.froots: dict[str, set] = {}       # std::function-typed local/param id -> where its value comes from
         self.fresh: dict[str, int] = {}        # var id -> escape line
         self.param_index: dict[str, tuple] = {}
+        # lock objects (unique_lock & co.): var id -> (mutex ids, recursive); flow-sensitive overlay on the
+        # lexical lock set: objects explicitly unlock()ed / release()d, deferred objects explicitly lock()ed
+        self.lockvars: dict[str, tuple] = {}
+        self.ov_unlocked: dict[str, tuple] = {}
+        self.ov_locked: dict[str, tuple] = {}
+        self.scope_stack: list[list] = [[]]
 
     # ---- helpers ------------------------------------------------------------------
     @staticmethod
@@ -948,6 +954,7 @@ class FnAnalysis:
         out = {}
         for fn in [self.fn] + self._nested_lambdas(self.fn):
             self.cur = fn
+            self.ov_unlocked, self.ov_locked, self.scope_stack = {}, {}, [[]]
             self.events = []
             self.ret: set = set()
             self.cls = fn["cls"] or self._lambda_cls(fn)
@@ -981,7 +988,105 @@ class FnAnalysis:
             return LOCK_ALIASES.get(q, q)
         return None
 
+    # ---- flow-sensitive part of the lock set -----------------------------------------------
+    def eff(self, held):
+        """locks held at this point: the lexically enclosing lock objects, minus those explicitly
+        unlocked / released so far, plus deferred ones explicitly locked so far"""
+        out = set()
+        for h in held:
+            if h.startswith("@"):                     # a lock object in whose lexical scope we are
+                if h[1:] not in self.ov_unlocked:
+                    out |= set(self.lockvars[h[1:]][0])
+            else:
+                out.add(h)
+        for ls in self.ov_locked.values():
+            out |= set(ls)
+        return frozenset(out)
+
+    def ov_get(self):
+        return (dict(self.ov_unlocked), dict(self.ov_locked))
+
+    def ov_set(self, st):
+        self.ov_unlocked, self.ov_locked = dict(st[0]), dict(st[1])
+
+    @staticmethod
+    def ov_merge(a, b):
+        """join of two paths: unlocked on either path -> unlocked; locked only if locked on both"""
+        un = dict(a[0]); un.update(b[0])
+        lk = {k: v for k, v in a[1].items() if k in b[1]}
+        return (un, lk)
+
+    def scoped(self, body):
+        """run body() in a new lexical scope; lock objects declared inside stop existing afterwards"""
+        self.scope_stack.append([])
+        try:
+            body()
+        finally:
+            for vid in self.scope_stack.pop():
+                self.ov_unlocked.pop(vid, None)
+                self.ov_locked.pop(vid, None)
+
+    def lock_object_call(self, n, held) -> bool:
+        """lk.unlock() / lk.release() / lk.lock() / lk.try_lock() on a lock object, condition-variable waits,
+        std::lock(lk1, lk2): update the overlay; True if the call was one of these"""
+        ins = n.get("in") or []
+        k = n.get("k")
+        if k == "CXXMemberCallExpr" and ins and ins[0].get("k") == "MemberExpr" and ins[0].get("in"):
+            name = ins[0].get("n")
+            obj = self.unwrap(ins[0]["in"][0])
+            vid = (obj.get("ref") or {}).get("id") if obj.get("k") == "DeclRefExpr" else None
+            if vid in self.lockvars and name in ("unlock", "release", "lock", "try_lock", "try_lock_for", "try_lock_until",
+                                                 "owns_lock", "mutex", "operator bool"):
+                locks, rec = self.lockvars[vid]
+                if name in ("unlock", "release"):
+                    self.ov_locked.pop(vid, None)
+                    self.ov_unlocked[vid] = locks
+                elif name == "lock":
+                    before = self.eff(held)
+                    self.events.append(("lock", tuple(locks), rec, n.get("f") or self.cur["file"], n.get("l"),
+                                        frozenset(set(before) - set(locks)) if rec else before))
+                    if vid in self.ov_unlocked:
+                        del self.ov_unlocked[vid]
+                    if "@" + vid not in held:          # a deferred / try lock object: held from here on
+                        self.ov_locked[vid] = locks
+                # try_lock*: may fail -> conservatively not held (no change)
+                return True
+            if name in ("wait", "wait_for", "wait_until") and "condition_variable" in (self.ty(obj) or ""):
+                # the wait releases the lock object and re-acquires it before returning: the lock set of the
+                # accesses around it is unchanged, but the re-acquisition happens under the other held locks
+                args = ins[1:]
+                if args:
+                    a0 = self.unwrap(args[0])
+                    avid = (a0.get("ref") or {}).get("id") if a0.get("k") == "DeclRefExpr" else None
+                    if avid in self.lockvars:
+                        locks, rec = self.lockvars[avid]
+                        self.events.append(("lock", tuple(locks), rec, n.get("f") or self.cur["file"], n.get("l"),
+                                            frozenset(set(self.eff(held)) - set(locks))))
+                    for a in args[1:]:
+                        self.visit_arg(a, held, external=True)   # the predicate runs with the lock held
+                return True
+            if name in ("lock", "unlock", "try_lock", "lock_shared", "unlock_shared") and "mutex" in (self.ty(obj) or ""):
+                self.prog.gaps.append(f"manual {name}() on a mutex at {Path(n.get('f') or self.cur['file']).name}:{n.get('l')} "
+                                      f"(not tracked: the region is treated as unlocked)")
+                return True
+        if k == "CallExpr" and ins:
+            callee = self.unwrap(ins[0])
+            if (callee.get("ref") or {}).get("n") == "lock" and len(ins) >= 3:
+                vids = []
+                for a in ins[1:]:
+                    u = self.unwrap(a)
+                    vid = (u.get("ref") or {}).get("id") if u.get("k") == "DeclRefExpr" else None
+                    if vid in self.lockvars:
+                        vids.append(vid)
+                if vids:   # std::lock(lk1, lk2, ...): deadlock-avoiding acquisition of deferred lock objects
+                    for vid in vids:
+                        self.ov_unlocked.pop(vid, None)
+                        self.ov_locked[vid] = self.lockvars[vid][0]
+                    return True
+        return False
+
     def emit_acc(self, roots, kind, n, held, force_w=False, confined=False):
+        held = self.eff(held)
         if not roots:
             return
         line = n.get("l")
@@ -1176,18 +1281,18 @@ class FnAnalysis:
             u = u["in"][0]
         if u.get("k") == "LambdaExpr":
             if external:
-                self.events.append(("call", u["lam"], {}, u.get("f") or self.cur["file"], u.get("l"), held))
+                self.events.append(("call", u["lam"], {}, u.get("f") or self.cur["file"], u.get("l"), self.eff(held)))
             else:
-                self.events.append(("fstore", ("P", callee_key, index), ("L", u["lam"]), None, u.get("l"), held))
+                self.events.append(("fstore", ("P", callee_key, index), ("L", u["lam"]), None, u.get("l"), self.eff(held)))
             for c in u.get("in", []) or []:
                 self.visit(c, held)
             return
         if u.get("k") == "DeclRefExpr" and (u.get("ref") or {}).get("id") in self.lambda_vars:
             lk = self.lambda_vars[u["ref"]["id"]]
             if external:
-                self.events.append(("call", lk, {}, u.get("f") or self.cur["file"], u.get("l"), held))
+                self.events.append(("call", lk, {}, u.get("f") or self.cur["file"], u.get("l"), self.eff(held)))
             else:
-                self.events.append(("fstore", ("P", callee_key, index), ("L", lk), None, u.get("l"), held))
+                self.events.append(("fstore", ("P", callee_key, index), ("L", lk), None, u.get("l"), self.eff(held)))
             return
         if u.get("k") in ("CXXConstructExpr", "CXXTemporaryObjectExpr") and len(u.get("in", []) or []) == 1 and \
                 "std::function" in (self.ty(u) or "") or (u.get("k") in ("CXXConstructExpr",) and self._wraps_lambda(u)):
@@ -1195,9 +1300,9 @@ class FnAnalysis:
             inner = self._wraps_lambda(u)
             if inner is not None:
                 if external:
-                    self.events.append(("call", inner["lam"], {}, inner.get("f") or self.cur["file"], inner.get("l"), held))
+                    self.events.append(("call", inner["lam"], {}, inner.get("f") or self.cur["file"], inner.get("l"), self.eff(held)))
                 else:
-                    self.events.append(("fstore", ("P", callee_key, index), ("L", inner["lam"]), None, inner.get("l"), held))
+                    self.events.append(("fstore", ("P", callee_key, index), ("L", inner["lam"]), None, inner.get("l"), self.eff(held)))
                 for c in inner.get("in", []) or []:
                     self.visit(c, held)
                 return
@@ -1231,6 +1336,8 @@ class FnAnalysis:
         k = n.get("k")
         ins = n.get("in") or []
         if not ins:
+            return
+        if self.lock_object_call(n, held):
             return
         line, f = n.get("l"), n.get("f") or self.cur["file"]
         if k == "CXXMemberCallExpr":
@@ -1335,7 +1442,7 @@ class FnAnalysis:
         plocs = sorted((r[1], r[2]) for r in roots if r[0] == P)
         lams = sorted(r[1] for r in roots if r[0] == "L")
         self.events.append(("cbcall", (tuple(locs), tuple(plocs), tuple(lams)), None, n.get("f") or self.cur["file"],
-                            n.get("l"), held))
+                            n.get("l"), self.eff(held)))
 
     def _analysed_call(self, key, args, n, held, obj=None):
         callee = self.prog.functions[key]
@@ -1368,20 +1475,69 @@ class FnAnalysis:
                         self.visit_side(ua, held)   # the callee accesses the object, not the call site
                         continue
             self.visit_arg(a, held, external=False, callee_key=key, index=i)
-        self.events.append(("call", key, bind, n.get("f") or self.cur["file"], n.get("l"), held))
+        self.events.append(("call", key, bind, n.get("f") or self.cur["file"], n.get("l"), self.eff(held)))
 
     # statements -----------------------------------------------------------------------
     def visit_stmt(self, n, held):
         k = n.get("k")
-        if k == "CompoundStmt":
-            cur = held
-            for c in n.get("in", []) or []:
-                cur = self.visit_in_scope(c, cur)
+        if k == "CompoundStmt" or k == "SwitchStmt":
+            def body():
+                cur = held
+                for c in n.get("in", []) or []:
+                    cur = self.visit_in_scope(c, cur)
+            self.scoped(body)
             return
-        if k in ("IfStmt", "ForStmt", "WhileStmt", "SwitchStmt", "CXXForRangeStmt", "DoStmt"):
-            cur = held
-            for c in n.get("in", []) or []:
-                cur = self.visit_in_scope(c, cur)
+        if k == "IfStmt":
+            def body():
+                ins = list(n.get("in", []) or [])
+                nbranch = 2 if n.get("helse") else 1
+                head, branches = ins[:-nbranch], ins[-nbranch:]
+                cur = held
+                for c in head:                      # init statement, condition variable, condition
+                    cur = self.visit_in_scope(c, cur)
+                s0 = self.ov_get()
+                outs = []
+                for b in branches:
+                    self.ov_set(s0)
+                    self.scoped(lambda b=b: self.visit_in_scope(b, cur))
+                    outs.append(self.ov_get())
+                if len(outs) == 1:
+                    outs.append(s0)
+                self.ov_set(self.ov_merge(outs[0], outs[1]))
+            self.scoped(body)
+            return
+        if k in ("ForStmt", "WhileStmt", "CXXForRangeStmt", "DoStmt"):
+            def body():
+                def once():
+                    cur = held
+                    for c in n.get("in", []) or []:
+                        cur = self.visit_in_scope(c, cur)
+                s0 = self.ov_get()
+                self.scoped(once)
+                m = self.ov_merge(s0, self.ov_get())
+                if m != s0:                         # the body changes the lock state: a later iteration starts from the join
+                    self.ov_set(m)
+                    self.scoped(once)
+                    m = self.ov_merge(m, self.ov_get())
+                self.ov_set(m)
+            self.scoped(body)
+            return
+        if k == "CXXTryStmt":
+            ins = list(n.get("in", []) or [])
+            s0 = self.ov_get()
+            outs = []
+            if ins:
+                self.scoped(lambda: self.visit_in_scope(ins[0], held))
+                outs.append(self.ov_get())
+            entry = self.ov_merge(s0, outs[0]) if outs else s0
+            for c in ins[1:]:                       # handlers: entered from anywhere inside the try block
+                self.ov_set(entry)
+                self.scoped(lambda c=c: self.visit_in_scope(c, held))
+                outs.append(self.ov_get())
+            res = outs[0] if outs else s0
+            for o in outs[1:]:
+                res = self.ov_merge(res, o)
+            self.ov_set(res)
             return
         if k == "ReturnStmt":
             for c in n.get("in", []) or []:
@@ -1424,9 +1580,19 @@ class FnAnalysis:
                 if v.get("k") == "VarDecl" and any(lt in (v.get("t") or "") or lt in (v.get("dt") or "") for lt in LOCK_TYPES):
                     ctor = v["in"][-1] if v.get("in") else None
                     locks = []
+                    tag = None
                     if ctor is not None:
                         cu = self.unwrap(ctor)
                         for a in cu.get("in", []) or []:
+                            ua = self.unwrap(a)
+                            at = (self.ty(ua) or "") + " " + (self.ty(a) or "")
+                            nm = next((t for t in ("defer_lock", "try_to_lock", "adopt_lock") if t + "_t" in at), None)
+                            if nm:
+                                tag = nm
+                                continue
+                            if "duration" in (self.ty(ua) or "") or "time_point" in (self.ty(ua) or ""):
+                                tag = "try_to_lock"     # timed constructors may fail like try_to_lock
+                                continue
                             lid = self.lock_id_of(a)
                             if lid:
                                 locks.append(lid)
@@ -1435,9 +1601,16 @@ class FnAnalysis:
                     recursive = "recursive" in ((v.get("t") or "") + (v.get("dt") or "")) or (
                         ctor is not None and any("recursive" in self.ty(self.unwrap(a))
                                                  for a in (self.unwrap(ctor).get("in", []) or [])))
+                    self.lockvars[v.get("id")] = (tuple(locks), recursive)
+                    self.scope_stack[-1].append(v.get("id"))
+                    if tag in ("defer_lock", "try_to_lock"):
+                        # not (known to be) held until an explicit lock(); try-locks may fail: never counted
+                        continue
                     # acquisition event (for the lock-order graph): which locks are taken here, lexically under `new`
-                    self.events.append(("lock", tuple(locks), recursive, v.get("f") or self.cur["file"], v.get("l"), new))
-                    new = new | frozenset(locks)
+                    if tag != "adopt_lock":
+                        self.events.append(("lock", tuple(locks), recursive, v.get("f") or self.cur["file"], v.get("l"),
+                                            self.eff(new)))
+                    new = new | frozenset(["@" + v.get("id")])
                 else:
                     self.visit_stmt(v, new)
             return new
@@ -1689,7 +1862,8 @@ def selftest_rows() -> tuple[set, list, list]:
                 break
             prog.ret_roots = new
         roles = {"A": {"multi": False, "entries": [(box + "::entryA", [])]},
-                 "B": {"multi": False, "entries": [(box + "::entryB", [])]}}
+                 "B": {"multi": False, "entries": [(box + "::entryB", [])]},
+                 "C": {"multi": False, "entries": [(box + "::entryC", [])]}}
         tab = build_table(prog, roles, lambda l: True)
         rows = {(rk[0], rk[1].split("selftest::")[-1], rk[2], tuple(l.split("::")[-1] for l in rk[3])) for rk in tab.rows}
         return rows, [c.split("selftest::")[-1] for c in tab.confined], tab.gaps
